@@ -86,6 +86,13 @@ theorem C12_noop_close (s : BState) (st : Strategy) (hp : s.hasPendingChanges = 
     s.close st = some (s, s.variants.length - 1) := by
   unfold BState.close; simp [hp]
 
+/-- a variant never lists a datum twice and lists only data the builder knows: with `C12_membership`
+    (a permutation, hence with multiplicities) this makes "minus removals plus additions" a statement
+    about sets of distinct, existing data -/
+theorem C12_variant_distinct_known (reqs : List Req) (hv : ∀ r ∈ reqs, r.valid) :
+    ∀ v ∈ (run reqs).variants, v.Nodup ∧ ∀ d ∈ v, d < (run reqs).defs.length :=
+  fun v hvm => ⟨((reachable_BInv reqs hv).vinv v hvm).nodup, ((reachable_BInv reqs hv).vinv v hvm).inRange⟩
+
 /-- non-vacuity -/
 example : (run Ex.h1).hasPendingChanges = false ∧ (run (Ex.h1 ++ [.remove 2])).hasPendingChanges = true ∧
     (match ((run Ex.h1).removeDatum 0).2 with | .error .notInPrev => true | _ => false) = true ∧
